@@ -89,6 +89,49 @@ pub fn judge(case: &Case, g: &GraphData, reach: &Reach, tag: &str, threads: usiz
                 &format!("C02/{}/assert_properties-{}", tag, if ok { "succeeds-wrongly" } else { "panics-wrongly" }),
                 json!({"run": desc(), "expected_ok": all_ok, "discoveries": out.discoveries.keys().collect::<Vec<_>>()}),
             );
+            return;
+        }
+    }
+    // The helper methods are how users read the verdicts: each must say what `discoveries()` says.
+    for h in &out.helpers {
+        let idx = NAMES.iter().position(|n| *n == h.name).unwrap();
+        let (kind, slot) = &g.props[idx];
+        let reported = out.discoveries.get(h.name);
+        case.add("helper_views_compared", 1);
+        let bad = |what: &str| {
+            case.violation(
+                &format!("C02/{}/helper/{}", tag, what),
+                json!({"run": desc(), "property": h.name, "kind": expectation_tag(kind), "discoveries_has_it": reported.is_some(), "helpers": format!("{:?}", h)}),
+            );
+        };
+        if h.discovery.as_ref() != reported {
+            return bad("discovery(name)-differs-from-discoveries()");
+        }
+        if h.assert_any_discovery_ok != reported.is_some() {
+            return bad(if reported.is_some() { "assert_any_discovery-panics-although-discovered" } else { "assert_any_discovery-succeeds-without-a-discovery" });
+        }
+        if h.assert_no_discovery_ok != reported.is_none() {
+            return bad(if reported.is_none() { "assert_no_discovery-panics-without-a-discovery" } else { "assert_no_discovery-succeeds-although-discovered" });
+        }
+        if *kind == Expectation::Eventually {
+            // assert_discovery's own notion of a terminal state (no action at all) is narrower
+            // than the checkers' (no in-boundary successor); not judged
+            continue;
+        }
+        if h.assert_discovery_of_reported_path_ok == Some(false) {
+            return bad("assert_discovery-rejects-the-reported-path");
+        }
+        // the empty action list denotes the initial states: accepted iff a discovery exists and
+        // some initial state is itself a witness
+        if g.inits.iter().any(|i| !g.inb[*i as usize]) {
+            // whether an out-of-boundary initial state may serve as a witness here is not
+            // something the statement settles; not judged
+            continue;
+        }
+        let want = *kind == Expectation::Sometimes;
+        let init_witness = g.inits.iter().any(|i| g.labels[*slot][*i as usize] == want);
+        if h.assert_discovery_of_empty_path_ok != (reported.is_some() && init_witness) {
+            return bad(if init_witness { "assert_discovery-rejects-a-witnessing-initial-state" } else { "assert_discovery-accepts-a-path-that-is-no-witness" });
         }
     }
 }
